@@ -460,6 +460,14 @@ def getExceptionClass (c : ClsRef) : ObjType := ⟨c, c⟩
 
 def ExcObj.type (o : ExcObj) : ObjType := getExceptionClass o.cls
 
+/-- the class `dump` sees when a RECEIVED exception is raised on to another peer (a callback's exception passing through a
+server method, rpyc over rpyc): `typ` is the `Derived` subclass — never the built-in object itself — and `typ.__module__`,
+`typ.__name__` are the copies `_get_exception_class` made of the class it subclasses -/
+def ObjType.presentedAs (t : ObjType) : Option ClsId :=
+  match t.namedAfter with
+  | .real (.str m) c => some ⟨m, c, .custom⟩
+  | _ => none
+
 /-- `s.count(sub)`: non-overlapping occurrences, left to right -/
 def countSubAux (sub : Str) : Nat → Str → Nat
   | 0, _ => 0
